@@ -38,6 +38,7 @@ Task: produce TWO different, independent small changes (variant A and variant B)
   2. violates the property above for SOME inputs / histories, but NOT for ordinary everyday use: it should need something specific to manifest - an unusual input (particular characters, layout, dialect, a particular combination or count of elements), a multi-step sequence of operations (e.g. reusing an object after a particular earlier document), a particular position/boundary, or two cooperating code sites that each look fine alone. A change that breaks every document or the README example at once is NOT wanted. Make it look like a plausible programming mistake or an over-eager "optimisation"/refactoring a maintainer could commit, not sabotage (no magic strings like "if text == 'xyz'").
   3. A and B should have different root causes in different code locations.
   4. The violation must be one of the property AS STATED (its statement and its quantifier), using only the library's public behaviour; do not rely on private attributes in the demonstration.
+  5. STAY INSIDE THE QUANTIFIER. The trigger must be something the "Quantified over" text above covers: ordinary str source texts / documents (any characters, layout, dialect, size), the documents the parser returns for them, and - where the property speaks of them - sequences of such documents through ordinary instances made by their constructors (Parser(), TokenMatcher(name), AstBuilder(), Compiler(), IdGenerator(), GherkinEvents(Options(...)), TokenScanner(text or path), SourceEvents([paths])) used through their documented methods, or the interleavings the property names. NOT acceptable this round (earlier rounds exhausted them and they are outside the properties): subclasses, duck-typed or non-dict/non-list stand-ins, hand-built ASTs with repeated nodes or ids, copies / pickles of library objects, reassigning attributes of objects in use, editing returned results and expecting isolation, interpreter flags, logging / warning configuration, environment tricks (cwd, rlimits, GC, pipes), threads sharing one instance.
 
 For each variant write, under {wt}/SEED/ (create the directory):
   - A.diff / B.diff : the patch as produced by `git diff` in the worktree (ONLY that variant's change; apply-able with `git apply` on a clean checkout of the same commit). Produce variant A, save its diff, run `git checkout -- .`, then produce variant B the same way. Leave the worktree clean (no modifications to tracked files) at the end; SEED/ is untracked and stays.
